@@ -99,5 +99,8 @@ pub fn main_loop(f: fn(&str) -> String) {
         }
         let r = guarded(|| f(&line));
         writeln!(out, "{r}").unwrap();
+        // one result per line, visible at once: the driver falls back to a line-by-line
+        // dialogue with a time limit when a case crashes or hangs the process
+        out.flush().unwrap();
     }
 }
